@@ -107,7 +107,7 @@ def render_need(n):
     if k == "auxdone":
         s = n["which"] if n["which"] in ("any", "all") else "aux %s" % n["which"]
         if n.get("frame"):
-            s += " in frame %s" % n["frame"]
+            s += " in frame" if n["frame"] == "me!" else " in frame %s" % n["frame"]
         return neg + s + " is done"
     if k == "status":
         return neg + "%s is %s" % (n["who"], n["status"])
